@@ -412,14 +412,16 @@ Variable SF : nat -> nat -> list A -> sg_answer (A := A).
 Variable RJ : nat -> nat.
 Variable SHK : nat -> sg_hookargs (A := A) -> bool.
 
-(* (1) on a converged return the CODED stop test (EvalStopping with tolerance
-   epsilon*gamma) was evaluated on exactly (previous epoch's iterate, returned iterate) and
-   fired; all earlier tests did not fire *)
+(* (1) on a converged return the stop test OVER ALL COORDINATES (SpecSaga.sg_eval_stop_all:
+   max_i |x_i - xs_i| / max_i |x_i| <= epsilon*gamma, every index i of the iterates, stated by
+   index and independently of the model's walk) holds between the previous epoch's iterate and
+   the returned iterate; it was evaluated on exactly that pair and all earlier tests did not
+   fire.  Unconditional since fix 494d9f3 (the dense joint iterator visits every coordinate). *)
 Theorem saga_stop_condition : forall (P : sg_params) x0 fuel x tr el,
   saga NM SF RJ SHK P fuel x0 = (SgConv x, tr, el) ->
   exists xs d rest, el = (xs, x, d, true) :: rest /\ xs = last_it x0 rest /\ all_go rest /\
-    sg_eval_stop NM xs x (sg_tol NM P) = SStop d.
-Proof. exact (saga_stop_l NM SF RJ SHK). Qed.
+    sg_eval_stop_all NM xs x (sg_tol NM P) = SStop d.
+Proof. exact (saga_stop_all_l NM SF RJ SHK). Qed.
 (* every logged test is the coded test on the logged pair, and each epoch compares with the
    iterate the previous epoch ended with (the start point for the first) *)
 Theorem saga_stop_tests_chained : forall (P : sg_params) x0 fuel,
@@ -430,11 +432,16 @@ Theorem saga_other_returns : forall (P : sg_params) x0 fuel x,
   fst (fst (saga NM SF RJ SHK P fuel x0)) = SgHook x \/ fst (fst (saga NM SF RJ SHK P fuel x0)) = SgCap x ->
   x = last_it x0 (snd (saga NM SF RJ SHK P fuel x0)) /\ all_go (snd (saga NM SF RJ SHK P fuel x0)).
 Proof. exact (saga_other_returns_l NM SF RJ SHK). Qed.
-(* the coded test equals the test over ALL coordinates when no coordinate is zero in both
-   iterates; otherwise it does not: saga_stop_zero_prefix_refuted *)
-Theorem saga_stop_test_full_when_no_common_zero : forall (xs x1 : list A) eps,
-  Forall (fun p => eqb NM (fst p) (zero NM) && eqb NM (snd p) (zero NM) = false) (combine xs x1) ->
-  sg_eval_stop NM xs x1 eps = sg_eval_stop_full NM xs x1 eps.
+(* the coded test (the walk of xs.JOINT_ITERATOR(x1)) IS the test over ALL coordinates, for all
+   vectors and tolerances — no hypothesis (before 494d9f3: only when no coordinate is zero in
+   both iterates; regression witness saga_stop_zero_prefix_regression).  So every logged test
+   of saga_stop_tests_chained is the full test too. *)
+Theorem saga_stop_test_full : forall (xs x1 : list A) eps,
+  sg_eval_stop NM xs x1 eps = sg_eval_stop_all NM xs x1 eps.
+Proof. exact (sg_eval_stop_all_agree NM). Qed.
+(* equal dimensions (saga's xs and x1 always are): the plain zip of the two iterates *)
+Theorem saga_stop_test_full_zip : forall (xs x1 : list A) eps,
+  length xs = length x1 -> sg_eval_stop NM xs x1 eps = sg_eval_stop_full NM xs x1 eps.
 Proof. exact (sg_eval_stop_full_agree NM). Qed.
 
 (* (2) hook arguments: (x1, delta) are those of a logged non-stopping test, lambda is the
@@ -459,16 +466,20 @@ Theorem saga_epoch_cap : forall (P : sg_params) x0 fuel,
 Proof. exact (saga_caps_l NM SF RJ SHK). Qed.
 End PropsSaga.
 
-(* refuted on the faithful model (known finding F-SAGA-STOP-ZERO-PREFIX) *)
-Theorem saga_stop_zero_prefix_refuted :
-  exists tr, saga NumF sgq noRJ noSHK (Psg false) 100 [0%float; 0%float]
-               = (SgConv [0%float; 0.5%float], tr, [([0%float; 0%float], [0%float; 0.5%float], 0%float, true)]) /\
-     sg_eval_stop_full NumF [0%float; 0%float] [0%float; 0.5%float] (sg_tol NumF (Psg false)) = SGo 1%float /\
-     sg_n_evals tr = 2%nat.
-Proof. exact saga_stop_zero_prefix_refuted_l. Qed.
+(* regression (was F-SAGA-STOP-ZERO-PREFIX, fixed by 494d9f3): from (0, 0) the pre-fix test stopped
+   after one epoch at (0, 0.5) having seen no coordinate; at HEAD that test does not fire (SGo 1), the
+   run continues and returns (0, 0.96875) with the test over all coordinates satisfied *)
+Example saga_stop_zero_prefix_regression :
+  exists tr d rest, saga NumF sgq noRJ noSHK (Psg false) 100 [0%float; 0%float]
+               = (SgConv [0%float; 0.96875%float], tr, ([0%float; 0.9375%float], [0%float; 0.96875%float], d, true) :: rest) /\
+     last rest ([], [], 0%float, true) = ([0%float; 0%float], [0%float; 0.5%float], 1%float, false) /\ length rest = 4%nat /\
+     sg_eval_stop_all NumF [0%float; 0.9375%float] [0%float; 0.96875%float] (sg_tol NumF (Psg false)) = SStop d /\
+     sg_eval_stop_prefix NumF [0%float; 0%float] [0%float; 0.5%float] (sg_tol NumF (Psg false)) = SStop 0%float /\
+     sg_eval_stop_all NumF [0%float; 0%float] [0%float; 0.5%float] (sg_tol NumF (Psg false)) = SGo 1%float.
+Proof. exact saga_stop_zero_prefix_regression_l. Qed.
 Example saga_converges :
   exists x tr xs d rest, saga NumF sgq noRJ noSHK (Psg false) 100 [2%float; 3%float] = (SgConv x, tr, (xs, x, d, true) :: rest) /\
-     sg_eval_stop_full NumF xs x (sg_tol NumF (Psg false)) = SStop d /\ length rest = 4%nat.
+     sg_eval_stop_all NumF xs x (sg_tol NumF (Psg false)) = SStop d /\ length rest = 4%nat.
 Proof. exact saga_converges_l. Qed.
 Example saga_hook_without_regulariser_panics :
   exists tr el, saga NumF sgq noRJ noSHK (Psg true) 100 [2%float; 3%float] = (SgPanic, tr, el) /\
@@ -524,10 +535,11 @@ Theorem blahut_hook_value_at_point_refuted :
 Proof. exact blahut_hook_value_lag_refuted_l. Qed.
 
 (* ===================================================================================
-   Round 3: adam() of adam.go (adam.Run, objective through AD) — not touched by fix f6a3a16,
-   which repaired adam_dense.go only.  Stop condition, hook arguments (value included) and the
-   evaluation cap hold as for the dense variant; the constraints clause holds for returns by
-   stop test and hook stop but NOT at the iteration cap (known finding F-ADAM-GENERIC-CAP). *)
+   Round 3: adam() of adam.go (adam.Run, objective through AD) — at HEAD d91fb9b (x1.Set(x2)
+   directly after the constraints check, mirroring adam_dense.go since f6a3a16).  Stop condition,
+   hook arguments (value included), the evaluation cap and the FULL constraints clause (stop test,
+   hook stop and iteration cap) hold as for the dense variant; F-ADAM-GENERIC-CAP is retired and
+   its witness is the regression example below. *)
 From ADV Require Import Base.Corr C07.ModelAdamGeneric C07.ProofsAdamGeneric.
 Section PropsAdamGeneric.
 Context {A : Type} (NM : Num A).
@@ -541,16 +553,60 @@ Proof. exact (adam_generic_stop_l NM F HK CS). Qed.
 Theorem adam_generic_hook_arguments : forall (P : ad_params) fuel x0,
   hooks_ok (snd (adam_generic NM F HK CS P fuel x0)).
 Proof. exact (adam_generic_hooks_l NM F HK CS). Qed.
-(* missing for the full statement: the Cap outcome (refuted below) *)
-Theorem adam_generic_constraints_partial : forall (P : ad_params) fuel x0,
-  accepted_unless_cap (ad_cons P) (snd (adam_generic NM F HK CS P fuel x0)) (fst (adam_generic NM F HK CS P fuel x0)).
+(* no non-error outcome (Converged, HookStop, Cap) carries a point the constraint callback was not
+   given or rejected *)
+Theorem adam_generic_constraints : forall (P : ad_params) fuel x0,
+  point_accepted (ad_cons P) (snd (adam_generic NM F HK CS P fuel x0)) (fst (adam_generic NM F HK CS P fuel x0)).
 Proof. exact (adam_generic_cons_l NM F HK CS). Qed.
 Theorem adam_generic_evaluation_cap : forall (P : ad_params) fuel x0,
   (n_evals (snd (adam_generic NM F HK CS P fuel x0)) <= Z.to_nat (ad_maxit P))%nat.
 Proof. exact (adam_generic_cap_l NM F HK CS). Qed.
 End PropsAdamGeneric.
-Theorem adam_generic_cap_constraints_refuted :
+Example adam_generic_cap_constraints_regression :
   exists x tr, adam_generic NumF Fsq noHK ge1 P4 10 [1%float] = (Cap x, tr) /\
-     ge1 0%nat x = false /\ submitted_and_accepted tr x = false /\
-     existsb (fun e => match e with EvEval (QGrad y) _ => list_eqb feqb x y | _ => false end) tr = false.
-Proof. exact adam_generic_cap_constraints_refuted_l. Qed.
+     ge1 0%nat x = true /\ submitted_and_accepted tr x = true /\
+     existsb (fun e => match e with EvEval (QGrad y) _ => list_eqb feqb x y | _ => false end) tr = true.
+Proof. exact adam_generic_cap_constraints_regression_l. Qed.
+
+(* ===================================================================================
+   Round 4: sagaJit (saga_jit.go; saga.Run with JitUpdate{&JitUpdateL1{lambda}}) — the
+   just-in-time variant: coordinates a sample does not touch are caught up lazily
+   (ModelSagaJit.v).  The statements of the saga section hold for it: for EVERY carrier,
+   per-sample oracle, sequence of draws, hook, start point, parameter record and fuel. *)
+From ADV Require Import C07.ModelSagaJit C07.ProofsSagaJit C07.ExamplesSagaJit.
+Section PropsSagaJit.
+Context {A : Type} (NM : Num A).
+Variable SF : nat -> nat -> list A -> sg_answer (A := A).
+Variable RJ : nat -> nat.
+Variable SHK : nat -> sg_hookargs (A := A) -> bool.
+(* (1) converged return: the stop test over ALL coordinates holds between the previous epoch's
+   iterate and the returned one; all earlier tests did not fire *)
+Theorem sagajit_stop_condition : forall (P : sg_params) x0 fuel x tr el,
+  saga_jit NM SF RJ SHK P fuel x0 = (SgConv x, tr, el) ->
+  exists xs d rest, el = (xs, x, d, true) :: rest /\ xs = last_it x0 rest /\ all_go rest /\
+    sg_eval_stop_all NM xs x (sg_tol NM P) = SStop d.
+Proof. exact (sagajit_stop_all_l NM SF RJ SHK). Qed.
+Theorem sagajit_stop_tests_chained : forall (P : sg_params) x0 fuel,
+  Forall (entry_ok NM P) (snd (saga_jit NM SF RJ SHK P fuel x0)) /\ chained x0 (snd (saga_jit NM SF RJ SHK P fuel x0)).
+Proof. exact (sagajit_tests_l NM SF RJ SHK). Qed.
+Theorem sagajit_other_returns : forall (P : sg_params) x0 fuel x,
+  fst (fst (saga_jit NM SF RJ SHK P fuel x0)) = SgHook x \/ fst (fst (saga_jit NM SF RJ SHK P fuel x0)) = SgCap x ->
+  x = last_it x0 (snd (saga_jit NM SF RJ SHK P fuel x0)) /\ all_go (snd (saga_jit NM SF RJ SHK P fuel x0)).
+Proof. exact (sagajit_other_returns_l NM SF RJ SHK). Qed.
+(* (2) hook arguments: (x1, delta) of a logged non-stopping test, the JitUpdate's lambda, epoch in range *)
+Theorem sagajit_hook_arguments : forall (P : sg_params) x0 fuel,
+  sg_hooks_ok NM P (snd (fst (saga_jit NM SF RJ SHK P fuel x0))) (snd (saga_jit NM SF RJ SHK P fuel x0)).
+Proof. exact (sagajit_hooks_l NM SF RJ SHK). Qed.
+(* (5) caps *)
+Theorem sagajit_epoch_cap : forall (P : sg_params) x0 fuel,
+  (length (snd (saga_jit NM SF RJ SHK P fuel x0)) <= Z.to_nat (sg_maxit P))%nat /\
+  (sg_n_evals (snd (fst (saga_jit NM SF RJ SHK P fuel x0))) <= sg_n P + sg_n P * Z.to_nat (sg_maxit P))%nat /\
+  (sg_n_hooks (snd (fst (saga_jit NM SF RJ SHK P fuel x0))) <= Z.to_nat (sg_maxit P))%nat.
+Proof. exact (sagajit_caps_l NM SF RJ SHK). Qed.
+End PropsSagaJit.
+Example sagajit_converges :
+  exists tr xs d rest, saga_jit NumF sgl noRJ noSHK Pjit 100 [0.25%float; 3%float]
+               = (SgConv [0%float; 0.908203125%float], tr, (xs, [0%float; 0.908203125%float], d, true) :: rest) /\
+     sg_eval_stop_all NumF xs [0%float; 0.908203125%float] (sg_tol NumF Pjit) = SStop d /\ length rest = 5%nat /\
+     last rest ([], [], 0%float, true) = ([0.25%float; 3%float], [0.1875%float; 1.9375%float], 0x1.18c6318c6318cp-1%float, false).
+Proof. exact sagajit_converges_l. Qed.
